@@ -615,3 +615,9 @@ for _k, (_lt, _te) in _R3.items():
 CHECKS["C09"]["required_classes"]["all"] += ["operation-after-a-failed-fsync-acknowledged-and-durable"]
 CHECKS["C19"]["required_classes"]["all"] = CHECKS["C19"].get("required_classes", {}).get("all", []) + ["hooks-dir-changed-at-run-time:dir-ww", "hooks-dir-changed-at-run-time:add-exec"]
 CHECKS["C19"]["level_text"] += " The hooks directory also changes while the agent runs (hooks added, removed, chmod +x / -x, directory made world-writable and safe again): eligibility is judged per round."
+CHECKS["C05"]["jobs"].append(J("pam-replies", VPAM, "TestC05PamReplies", {"shards": 8, "timeout": 900}, {"shards": 8, "timeout": 900}, rapid=False))
+CHECKS["C05"]["prebuild"] = CHECKS["C05"].get("prebuild", []) + PAM_PREBUILD
+CHECKS["C05"]["required_classes"]["all"] = CHECKS["C05"].get("required_classes", {}).get("all", []) + ["pam-module-reads-every-reply-length(0..300 exhaustive)"]
+CHECKS["C05"]["level_text"] += " PAM clause: the module is run against sasl.Server for every callback message length 0..300 and both verdicts (exhaustive)."
+CHECKS["C02"]["required_classes"]["all"] += ["kind:long-line"]
+CHECKS["C02"]["required_classes"]["all"] += ["file-replaced-in-place-under-a-live-handle"]
